@@ -332,6 +332,27 @@ def _chain_rules(c, R, rid, gsm, spec):
                     R.unrecognised(rid, "chain:loop-body", "selection by a pattern other than `Some(..)`: " + H.render_pat(cn["pat"]), cn.get("sp"))
             else:
                 R.unrecognised(rid, "chain:loop-body", "the pair is recorded under a condition the rule does not understand (%s)" % kind, b2s_ins[0]["sp"])
+        # exits of the iteration that path_conditions does not see (a `continue` nested inside another statement before the insert):
+        # the pair is then recorded under a condition that is not part of the keep predicate (seed C15-6)
+        accounted = set()
+        for kind, cn, extra in H.path_conditions(loop["body"], b2s_ins[0]):
+            accounted.add(id(cn))
+        chain = H.parents_of(loop["body"], b2s_ins[0]) or []
+        blocks = [p for p in chain if p.get("k") == "block"]
+        for ex in H.loop_exits(loop["body"]):
+            anc = H.parents_of(loop["body"], ex) or []
+            top = None
+            for blk in blocks:
+                for st in blk["stmts"]:
+                    if any(a is st for a in anc) or st is ex:
+                        top = st
+            s0 = H.peel(top, refs=False) if top is not None else None
+            simple = s0 is not None and s0.get("k") == "if" and "else" not in s0 and H.diverges(s0["then"]) and \
+                (id(s0["cond"]) in accounted or id(H.peel(s0["cond"], refs=False)) in accounted)
+            if not simple:
+                R.inst(rid, "chain:keep:foreign-condition", False, sp=ex.get("sp"), got="`%s` inside `%s`" % (ex["k"], H.render(top)[:90] if top is not None else "?"),
+                       detail="a pair that passes the keep predicate is not recorded on some path: the iteration is left before "
+                              "bridge_to_specialized.insert(..)")
     # ---- keep predicate: truth table over (synthetic, bridge flag, potential)
     f = None
     for x in filters:
